@@ -9,7 +9,7 @@
 #include <cstdlib>
 #include <functional>
 #include <pthread.h>
-namespace ops { MSSMNoFV_onshell* shared_mssm[2]; THDM* shared_thdm[2]; std::string slha_text[5]; }
+namespace ops { MSSMNoFV_onshell* shared_mssm[2]; MSSMNoFV_onshell* shared_edge[2]; THDM* shared_thdm[2]; std::string slha_text[5]; }
 double canary_race(double); double canary_memo(double);
 struct Task { std::function<void(ops::Res&)> fn; ops::Res res; };
 static std::atomic<int> gate{0}; static int gate_n = 0;
